@@ -15,6 +15,7 @@ package cmap
 
 import (
 	"sync"
+	"sync/atomic"
 )
 
 // Mutex is an interface that defines a thread-safe map with keys of type T associated to
@@ -43,34 +44,60 @@ type Mutex[T comparable] interface {
 	DeleteRUnlock(key T)
 }
 
+// item is a per-key mutex together with the number of goroutines that currently
+// hold it or wait for it. The count is what allows the delete-and-release
+// methods to tell whether the mutex can leave the map: removing a mutex that
+// somebody still waits for would let the next caller create a second mutex for
+// the same key, and two goroutines would then hold the key at once.
+type item struct {
+	sync.RWMutex
+	refs atomic.Int64
+}
+
 type mutex[T comparable] struct {
 	lock  sync.RWMutex
-	items map[T]*sync.RWMutex
+	items map[T]*item
 }
 
 func NewMutex[T comparable]() Mutex[T] {
 	return &mutex[T]{
-		items: make(map[T]*sync.RWMutex),
+		items: make(map[T]*item),
 	}
 }
 
-func (a *mutex[T]) Lock(key T) {
+// acquire returns the mutex for the key, creating it if needed, and registers
+// the caller as a user of it. The registration happens under the map lock, so
+// that the delete-and-release methods, which hold the map write lock, see it.
+func (a *mutex[T]) acquire(key T) (mutex *item, found bool) {
 	a.lock.RLock()
 	mutex, ok := a.items[key]
+	if ok {
+		mutex.refs.Add(1)
+	}
 	a.lock.RUnlock()
+	if ok {
+		return mutex, true
+	}
+
+	a.lock.Lock()
+	mutex, ok = a.items[key]
+	if !ok {
+		mutex = &item{}
+		a.items[key] = mutex
+	}
+	mutex.refs.Add(1)
+	a.lock.Unlock()
+	return mutex, false
+}
+
+func (a *mutex[T]) Lock(key T) {
+	mutex, ok := a.acquire(key)
 	if ok {
 		verifPoint("lock.found")
 		mutex.Lock()
 		return
 	}
 
-	a.lock.Lock()
-	mutex, ok = a.items[key]
-	if !ok {
-		mutex = &sync.RWMutex{}
-		a.items[key] = mutex
-	}
-	a.lock.Unlock()
 	verifPoint("lock.created")
 	mutex.Lock()
 }
@@ -80,14 +107,13 @@ func (a *mutex[T]) Unlock(key T) {
 	mutex, ok := a.items[key]
 	if ok {
 		mutex.Unlock()
+		mutex.refs.Add(-1)
 	}
 	a.lock.RUnlock()
 }
 
 func (a *mutex[T]) RLock(key T) {
-	a.lock.RLock()
-	mutex, ok := a.items[key]
-	a.lock.RUnlock()
+	mutex, ok := a.acquire(key)
 
 	if ok {
 		verifPoint("rlock.found")
@@ -95,13 +121,6 @@ func (a *mutex[T]) RLock(key T) {
 		return
 	}
 
-	a.lock.Lock()
-	mutex, ok = a.items[key]
-	if !ok {
-		mutex = &sync.RWMutex{}
-		a.items[key] = mutex
-	}
-	a.lock.Unlock()
 	verifPoint("rlock.created")
 	mutex.RLock()
 }
@@ -111,6 +130,7 @@ func (a *mutex[T]) RUnlock(key T) {
 	mutex, ok := a.items[key]
 	if ok {
 		mutex.RUnlock()
+		mutex.refs.Add(-1)
 	}
 	a.lock.RUnlock()
 }
@@ -126,8 +146,11 @@ func (a *mutex[T]) DeleteUnlock(key T) {
 	mutex, ok := a.items[key]
 	if ok {
 		mutex.Unlock()
+		// Keep the mutex in the map while other goroutines hold or wait for it
+		if mutex.refs.Add(-1) == 0 {
+			delete(a.items, key)
+		}
 	}
-	delete(a.items, key)
 	a.lock.Unlock()
 }
 
@@ -136,8 +159,11 @@ func (a *mutex[T]) DeleteRUnlock(key T) {
 	mutex, ok := a.items[key]
 	if ok {
 		mutex.RUnlock()
+		// Keep the mutex in the map while other goroutines hold or wait for it
+		if mutex.refs.Add(-1) == 0 {
+			delete(a.items, key)
+		}
 	}
-	delete(a.items, key)
 	a.lock.Unlock()
 }
 
